@@ -1,6 +1,6 @@
 /* dfcc entry points for the decoders' unbounded contracts (contracts/codecs_u.h) */
 #include "sodium/codecs.c"
-int v_errno;
+int v_errno; size_t g_k, g_m;
 void sodium_misuse(void) { __CPROVER_assert(0, "sodium_misuse reachable for an in-contract call"); __CPROVER_assume(0); }
 void hu_hex2bin(void) { unsigned char *b; size_t bm; const char *h; size_t hl; const char *ig; size_t *bl; const char **he; sodium_hex2bin(b, bm, h, hl, ig, bl, he); }
 void hu_base642bin(void) { unsigned char *b; size_t bm; const char *h; size_t hl; const char *ig; size_t *bl; const char **he; int v; sodium_base642bin(b, bm, h, hl, ig, bl, he, v); }
